@@ -10,7 +10,10 @@ and targets bound to a master at every tip m, through Branch.pull, Branch.push,
 GenericInterBranch._update_revisions, plus generate_revision_history,
 set_last_revision_info and update() for the append-only clause.  Source,
 target and master live in three separate real 2a repositories on an mc.vfs
-store; tips are reset by writing the branch's last-revision file.
+store; tips are reset by writing the branch's last-revision file.  A git<->git
+sub-run (real on-disk git repositories, histories written with dulwich, pull and
+push with stop revisions and overwrite; signatures prefixed git:) covers DAGs
+with <= 2 (quick) / 4 (thorough) commits.
 Oracle, from the statement, on the declarative DAG: without overwrite the tip
 moves to the requested revision iff it descends from the current tip, stays
 when the target already contains it, otherwise DivergedBranches and no change;
@@ -62,6 +65,12 @@ class W:
 
     def url(self, name):
         return self.store.url + name + "/"
+
+    def node_of(self, revid):
+        return dw.num(revid)
+
+    def revid(self, node):
+        return rid(node)
 
     def info(self, tip):
         if tip is None:
@@ -124,7 +133,7 @@ def lefthand_ok(ref, old, new):
 def check_info(acc, w, name, info, detail, what):
     """revno == length of the left-hand history of the tip; tip is a known revision."""
     revno, revid = info
-    node = None if revid == NULL else dw.num(revid)
+    node = None if revid == NULL else w.node_of(revid)
     if revid != NULL and (not isinstance(node, int) or node not in w.present):
         acc.violation("%s:tip-is-not-a-revision-of-the-history" % what, dict(detail, branch=name, info=info))
         return "bad"
@@ -145,7 +154,7 @@ def run_op(w, op, tname, stop, overwrite, sname="s"):
     from breezy.branch import InterBranch
     src = w.branch(sname)
     tgt = w.branch(tname)
-    stop_id = None if stop is None else rid(stop)
+    stop_id = None if stop is None else w.revid(stop)
     try:
         if op == "pull":
             tgt.pull(src, overwrite=overwrite, stop_revision=stop_id)
@@ -181,7 +190,8 @@ def judge_target(acc, w, sig0, detail, tname, old, x, overwrite, aro, outcome, n
     if new == "bad":
         return
     if outcome.startswith("exc:"):
-        acc.violation("tip-update:%s" % outcome[4:], dict(detail, branch=tname))
+        acc.violation("%stip-update:%s" % ("git:" if sig0.startswith("git:") else "", outcome[4:]),
+                      dict(detail, branch=tname))
         return
     rel = relation(ref, old, x)
     ghosty = x is not None and ref.lefthand_ends_in_ghost(x)
@@ -369,9 +379,130 @@ def judge_bound(acc, w, sig0, detail, tname, mname, t, m, x, overwrite, aro, mar
     judge_target(acc, w, sig0, detail, tname, t, x, overwrite, aro, outcome, new_t)
 
 
+# ---- git <-> git ------------------------------------------------------------
+
+class GitW:
+    """Source and target git repositories (real on-disk repositories with working trees on
+    /dev/shm) holding the same commit DAG; histories are written with dulwich (empty trees),
+    tips are set through refs/heads/master."""
+
+    def __init__(self, dag):
+        import os
+
+        from dulwich.objects import Commit, Tree
+        from mc import boot
+        from mc import wt as mwt
+        self.dag = dag
+        self.ghosts = frozenset()
+        self.ref = dw.Ref(dag)
+        self.dir = boot.scratch("c21git")
+        self.trees = {}
+        self.shas = None
+        for name in ("s", "t"):
+            tree = mwt.make_tree("git", os.path.join(self.dir, name))
+            repo = tree.branch.repository._git
+            et = Tree()
+            repo.object_store.add_object(et)
+            shas = []
+            for i, ps in enumerate(dag):
+                c = Commit()
+                c.tree = et.id
+                c.parents = [shas[p] for p in ps]
+                c.author = c.committer = b"C <c@example.com>"
+                c.commit_time = c.author_time = 1000000000 + i
+                c.commit_timezone = c.author_timezone = 0
+                c.encoding = b"UTF-8"
+                c.message = b"r%d" % i
+                repo.object_store.add_object(c)
+                shas.append(c.id)
+            self.trees[name] = tree
+            self.shas = shas
+        b = self.branch("s")
+        self.revids = [b.repository.lookup_foreign_revision_id(x) for x in self.shas]
+        self.nodes = {r: i for i, r in enumerate(self.revids)}
+        self.present = list(range(len(dag)))
+
+    def url(self, name):
+        return self.trees[name].basedir
+
+    def node_of(self, revid):
+        return self.nodes.get(revid, revid)
+
+    def revid(self, node):
+        return self.revids[node]
+
+    def info(self, tip):
+        if tip is None:
+            return (0, NULL)
+        return (len(self.ref.lefthand(tip)), self.revids[tip])
+
+    def set_tip(self, name, tip):
+        repo = self.trees[name].branch.repository._git
+        if tip is None:
+            try:
+                del repo.refs[b"refs/heads/master"]
+            except KeyError:
+                pass
+        else:
+            repo.refs[b"refs/heads/master"] = self.shas[tip]
+
+    def branch(self, name):
+        from breezy.branch import Branch
+        return Branch.open(self.url(name))
+
+    def read_tip(self, name):
+        return self.branch(name).last_revision_info()
+
+    def close(self):
+        import shutil
+        shutil.rmtree(self.dir, ignore_errors=True)
+
+
+def check_dag_git(acc, dag):
+    n = len(dag)
+    w = GitW(dag)
+    ref = w.ref
+    try:
+        tips = [None] + w.present
+        for s in tips:
+            w.set_tip("s", s)
+            stops = [None] + (sorted(ref.anc(s)) if s is not None else [])
+            for t in tips:
+                if not covering(ref, n, (), (t, s)):
+                    continue
+                for stop in stops:
+                    x = s if stop is None else stop
+                    for overwrite in (False, True):
+                        for op in ("pull", "push"):
+                            w.set_tip("t", t)
+                            outcome = run_op(w, op, "t", stop, overwrite)
+                            new_info = w.read_tip("t")
+                            acc.n += 1
+                            acc.count("git_ops")
+                            detail = {"dag": dag, "vcs": "git", "op": op, "target_tip": t, "source_tip": s,
+                                      "stop": stop, "overwrite": overwrite}
+                            judge_target(acc, w, "git:" + op, detail, "t", t, x, overwrite, False, outcome, new_info)
+                            acc.outcomes.add(("git:" + op, relation(ref, t, x), overwrite, outcome.split("@")[0]))
+                            if w.read_tip("s") != w.info(s):
+                                acc.violation("git:%s:source-tip-changed" % op, detail)
+                                w.set_tip("s", s)
+                            if t is not None and x is not None and x != t:
+                                acc.nt(("git", dag, t, s, stop))
+    finally:
+        w.close()
+
+
+def _work_git(chunk):
+    dw.quiet_trace()
+    acc = dw.Acc()
+    for dag in chunk:
+        check_dag_git(acc, dag)
+    return acc
+
+
 def _work(chunk):
     dw.quiet_trace()
-    acc = par.Acc()
+    acc = dw.Acc()
     for dag, ghosts, thorough in chunk:
         check_dag(acc, dag, ghosts, thorough)
     return acc
@@ -398,6 +529,10 @@ def run(ctx):
     GN = ctx.q(3, 4)
     items = items_for(N, GN, ctx.thorough)
     acc = par.merge(par.pmap(_work, items, seed=ctx.seed, chunks_per_job=8))
+    GITN = ctx.q(2, 4)
+    git_items = [d for k in range(1, GITN + 1) for d in gen.dags(k) if len(gen.heads(d, range(k))) <= 2]
+    acc_git = par.merge(par.pmap(_work_git, git_items, seed=ctx.seed, chunks_per_job=4))
+    acc.merge(acc_git)
     a1 = _work(items[:4])
     a2 = _work(items[:4])
     if (a1.n, sorted(map(repr, a1.outcomes)), sorted(x[0] for x in a1.violations)) != \
@@ -422,7 +557,8 @@ def run(ctx):
         "distinct_nontrivial": len(acc.nontrivial),
         "rule": "non-trivial = (history, target tip, source tip, stop) with a non-empty target and a requested revision different from the target tip",
         "distinct_outcomes": len(acc.outcomes),
-        "max_dag_nodes": N, "max_dag_nodes_ghost": GN,
+        "max_dag_nodes": N, "max_dag_nodes_ghost": GN, "max_dag_nodes_git": GITN,
+        "git_operations": acc.counters.get("git_ops", 0),
         "violations_raw": acc.counters.get("violations_raw", 0),
         "samples": acc.samples[:3],
         "exhaustive": True,
